@@ -331,6 +331,12 @@ func linModel(now int64) porcupine.Model {
 			case "unlock":
 				legal = okIs(m.Unlock(in.Op.Arg))
 			case "usesigner":
+				if in.Wire {
+					// through the wire a signer of the client is a plain sign request to the shim (which purges first)
+					w, _, _ := m.Sign(in.Op.Role, in.Ident.IsCert, in.Ident.YSSHCA, now)
+					legal = okIs(w)
+					break
+				}
 				// a signer handed out earlier: in-memory ones go through the shim again (and purge), the others
 				// straight to the underlying agent; the outcome depends on what happened since and is not asserted
 				if in.Ident.IsCert && m.MemHas(in.Op.Role) {
